@@ -172,6 +172,7 @@ func genConsumers(rng *rand.Rand, tier string) []string {
 	}
 	out := []string{fmt.Sprintf("config %d 1 1", rng.Intn(2))}
 	nrefs, ncons, nent := 0, 0, 0
+	zeroUsed := false // at most one entry returns the zero value with a nil error: then the value names its entry
 	var accs []int // consumer indices that are Access calls
 	ncb := map[int]int{}
 	if rng.Intn(3) > 0 {
@@ -209,7 +210,13 @@ func genConsumers(rng *rand.Rand, tier string) []string {
 			if rng.Intn(6) == 0 {
 				e = 1 + rng.Intn(3)
 			}
-			out = append(out, fmt.Sprintf("return %d v %d %d", rng.Intn(nent), b2i(rng.Intn(6) != 0), e))
+			val := "v"
+			if e == 0 && !zeroUsed && rng.Intn(5) == 0 {
+				val, zeroUsed = "0", true
+			} else if e != 0 && rng.Intn(3) == 0 {
+				val = "0"
+			}
+			out = append(out, fmt.Sprintf("return %d %s %d %d", rng.Intn(nent), val, b2i(rng.Intn(6) != 0), e))
 		case r < 70 && nent > 0:
 			out = append(out, fmt.Sprintf("released %d", rng.Intn(nent)))
 			nent++
@@ -255,6 +262,13 @@ func init() {
 	comp.Register(&comp.Component{
 		Name: "refcount-consumers", Model: "refcount-consumers", Gen: genConsumers, Exec: exec(true),
 		Corpus: [][]string{
+			// zero value of T with a nil error is an ordinary result: Access in its callback is cancelled when it is
+			// invalidated and re-invoked with the replacement (seed C10-s3)
+			{"config 0 1 1", "access", "return 0 0 1 0", "settle", "released 0", "quiesce", "cbreturn 0 0 0", "settle", "return 1 v 1 0", "quiesce", "cbreturn 0 1 0", "quiesce"},
+			// zero value held through ResolveWithReleased: released fires once when it is invalidated
+			{"config 0 1 1", "rwr 1", "return 0 0 1 0", "settle", "released 0", "quiesce", "return 1 v 1 0", "quiesce", "release 0", "quiesce"},
+			// zero value held through Wait and Access, invalidated by a context change; no replacement (context cleared)
+			{"config 0 1 1", "wait", "access", "rwr 1", "return 0 0 1 0", "settle", "clearctx", "quiesce", "cbreturn 1 0 4", "quiesce", "release 0", "release 2", "quiesce"},
 			// Access: invalidation during the callback; re-invocation with the replacement value
 			{"config 0 1 1", "access", "return 0 v 1 0", "settle", "released 0", "quiesce", "cbreturn 0 0 0", "settle", "return 1 v 1 0", "quiesce", "cbreturn 0 1 5", "quiesce"},
 			// Access: invalidation after the callback returned is too late to matter; resolver error; cancelled caller
